@@ -104,11 +104,11 @@ structure CfgRel (cx : Ctx) (e : SEE) (cfg : Spec.Cfg) : Prop where
   checkSequence : cfg.oracle.checkSequence = cx.checkSequence
   ecdsa : cfg.oracle.ecdsa = cx.checkECDSA
   schnorr : ∀ sig key sv ed, RelUnit (cx.checkSchnorr sig key sv ed) (cfg.oracle.schnorr sig key sv ed.codesepPos)
-  /-- the mock-signature tables denote the listed pairs (holds for what `--pretend-valid` parsing builds whenever
-      no signature is listed for two different keys: Properties/C11) -/
+  /-- the mock-signature tables denote the listed pairs (holds for what `--pretend-valid` parsing builds from every
+      well-formed list: Properties/C11 `parse_gives_CfgRel_clauses`) -/
   pretendKeys : ∀ key, e.pretendKeys.contains key = Spec.keyListed cfg key
   pretendPair : ∀ sig key, e.pretendKeys.contains key = true →
-    (pretendLookup e.pretendMap sig == some key) = Spec.pairListed cfg sig key
+    pretendHas e.pretendMap sig key = Spec.pairListed cfg sig key
 
 /-- the refinement statement for one opcode of the `switch` -/
 def OpRefines (op : Opcode) : Prop :=
